@@ -228,6 +228,13 @@ class Anchors:
             sr = [f for f in F.fns if f.kind != 'Closure' and f.locals[0]['ty'] == 'bool' and
                   any(f.locals[i]['ty'].startswith('&mut std::vec::Vec<') and 'SearchPath' in f.locals[i]['ty'] for i in range(1, f.argc + 1))]
         self._set('search-role', sr[0] if len(sr) == 1 else None, 'function returning the exact-match flag and producing the descent stack')
+        # header selection helpers: when the body of `DBInner::meta` moved into a helper such as `meta_in(&map, pagesize)`, a direct call of that helper is a header
+        # read too (rules judge the selection logic in the folded view of DBInner::meta)
+        hm = self.roles.get('DBInner::meta')
+        vr = self.roles.get('valid-role')
+        self.hdr_helpers = set()
+        if hm is not None and vr is not None and vr not in cg.get(hm, ()):
+            self.hdr_helpers = {g for g in cg.get(hm, ()) if g.kind != 'Closure' and g.self_adt and last_seg(g.self_adt) == 'DBInner' and vr in cg.get(g, ())}
         # the resize role: the DBInner method that grows the file (FileExt::allocate / File::set_len, itself or through private free helpers such as `set_file_size`)
         # and is reached from the commit; when several qualify (`ensure_capacity` calling `resize`), the innermost one that holds the primitive
         def grows(f, direct_only=False):
